@@ -1062,11 +1062,22 @@ func runR70(c *Ctx) {
 	loops := loopsOf(fn)
 	for i := range loops {
 		li := &loops[i]
-		if li.base == nil {
+		base := li.base
+		if base == nil {
+			// classic counted loop: i < len(qf.columns)
+			if iff, ok := li.header.Instrs[len(li.header.Instrs)-1].(*ssa.If); ok {
+				if cmp, ok := iff.Cond.(*ssa.BinOp); ok && cmp.Op == token.LSS {
+					if lc, ok := cmp.Y.(*ssa.Call); ok && builtinName(lc) == "len" {
+						base = lc.Call.Args[0]
+					}
+				}
+			}
+		}
+		if base == nil {
 			continue
 		}
-		if sl, ok := li.base.Type().Underlying().(*types.Slice); ok {
-			if n, ok := sl.Elem().(*types.Named); ok && n.Obj().Name() == "namedColumn" && fieldPathRootIsParam(li.base, fn.Params[0]) {
+		if sl, ok := base.Type().Underlying().(*types.Slice); ok {
+			if n, ok := sl.Elem().(*types.Named); ok && n.Obj().Name() == "namedColumn" && fieldPathRootIsParam(base, fn.Params[0]) {
 				loop = li
 			}
 		}
